@@ -171,6 +171,7 @@ static long one_run(const std::string &prof, uint64_t seed, const JV *replay, Ag
     std::string ck; if (const dnsref::RR *o = t.msg.opt()) { ck = "opt"; for (auto &op : o->opts) if (op.code == 10) ck = "ck=" + hexs(op.data); } else ck = "noopt";
     fprintf(stderr, "TX t=%lld fd=%d srv=%d %s %s type=%d attempt=%d beh=%s off=%zu len=%zu %s src=%s\n", (long long)t.t, t.fd, t.server, t.tcp ? "tcp" : "udp", t.qname_lc.c_str(), t.msg.qd.empty() ? -1 : t.msg.qd[0].type, t.attempt, beh_name[t.behaviour], t.stream_off, t.wire.size(), ck.c_str(), t.src_ip.c_str());
   }
+  if (getenv("SIM_DUMP_REQ")) for (auto &q : run.reqs) fprintf(stderr, "REQ #%d %s %s type=%d from_cb=%d accepted=%d submit=%lld done=%lld status=%s cb=%d tx_at_submit=%d tx_at_done=%d sync=%d\n", q.token, req_kind_name[q.kind], q.name.c_str(), q.qtype, (int)q.from_callback, (int)q.accepted, (long long)q.t_submit, (long long)q.t_done, q.status >= 0 ? ares_strerror(q.status) : "-", q.cb_count, q.tx_at_submit, q.tx_at_done, (int)q.done_sync);
   if (getenv("SIM_DUMP_RESP")) for (auto &r : W.resps) {
     std::string ck; if (const dnsref::RR *o = r.msg.opt()) { ck = "opt"; for (auto &op : o->opts) if (op.code == 10) ck = "ck=" + hexs(op.data); } else ck = "noopt";
     std::string rt; for (size_t i = 0; i < r.read_times.size(); i++) rt += " read@" + std::to_string(r.read_times[i]) + "/seq" + std::to_string(i < r.read_seqs.size() ? r.read_seqs[i] : 0);
